@@ -58,6 +58,8 @@ def gen_handover(rng, nops):
             choices += ["clone", "release", "release", "connect", "connect", "disc", "getsm", "getsm", "setsm", "send"]
         if held is not None:
             choices += ["freesm", "setsm", "setsm"]
+        if not choices:
+            break
         k = rng.choice(choices)
         if k == "new":
             refs.append(1); up.append(False); has_sm.append(False); smid.append(None)
@@ -225,7 +227,24 @@ def run_expat_second_context(chk, exe_sim):
                  stream="allocator-bypass", extra={"cls": "expat-second-context"})
 
 
+KNOWN_OOM = [
+    {"property": "C12", "id": "C12-oom-leak", "status": "known", "always_report": False,
+     "what": "blocks leaked when an allocation fails (connection set-up / negotiation paths of conn.c, auth.c, handler.c)",
+     "class": "a scenario that passes without allocfail and, with allocfail n, ends with live>0, no CRASH, allocerr=0, descriptors balanced",
+     "witness": "checks/c12conn.py stream 3 (about 2 % of the injection points of a full negotiation)"},
+    {"property": "C12", "id": "C12-oom-crash", "status": "known", "always_report": False,
+     "what": "NULL dereference when an allocation fails (results of hash_iter_new / strophe_strdup / xmpp_stanza_new used unchecked in "
+             "stanza.c, hash.c, auth.c, conn.c)",
+     "class": "a program / scenario that passes without allocfail and, with allocfail n, dies with a NULL-pointer report (UBSan null "
+              "member access or SEGV on the zero page); heap-use-after-free and double free are NOT in the class",
+     "witness": "allocfail 2;new 0;setname 0 61;setattr 0 6b 76;totext 0  (hash_iter_next(NULL) in _render_stanza_recursive)"},
+]
+
+
 def register_known(chk):
+    for e in KNOWN_OOM:
+        if not any(k.get("id") == e["id"] for k in chk.known):
+            chk.known.append(dict(e))
     c12stanza.register_known(chk)
     c12conn.register_known(chk)
     chk.known_preds[KNOWN_EXPAT] = lambda rec: rec.get("cls") == "expat-second-context"
